@@ -47,7 +47,8 @@ const STATUSES: &[u16] = &[200, 204, 304, 100, 101, 199, 201, 206, 299, 300, 301
 fn cl_value(g: &mut G, n: usize) -> (String, bool, bool) {
     // (text, valid, debatable)
     match g.below(13) {
-        0..=4 => (n.to_string(), true, false),
+        // 1*DIGIT: leading zeros are digits too
+        0..=4 => (if n % 5 == 4 { format!("{:04}", n) } else { n.to_string() }, true, false),
         5 => ("-1".into(), false, false),
         6 => ("".into(), false, false),
         7 => ((*g.pick(&["abc", "1x", "0x10", "1e3", "1.0", "١٢", "5\u{0}", "1\u{7f}0", "4\u{1}", "\u{8}7"])).to_string(), false, false),
